@@ -496,6 +496,8 @@ def check_c10(out, tier):
     rnd = random.Random(common.seed() + 10)
     mine = lambda c: c.startswith("C10.") or c == "C01.header"
     l1(out, ["MC_C10_quick.cfg"] if tier == "quick" else ["MC_C10_quick.cfg", "MC_C10_thorough.cfg"])
+    # shape maps (repeated labels, overlapping selectors), all classes + shape map, classes that are typed nodes (spec/MC_ShexerSM.tla)
+    l1(out, [("MC_ShexerSM", "MC_SM_hier.cfg"), ("MC_ShexerSM", "MC_SM_shapemap_quick.cfg" if tier == "quick" else "MC_SM_shapemap.cfg")])
     k = SIZES[tier]
     cases = []
     for i in range(300 * k):
